@@ -180,6 +180,14 @@ theorem textinput_cells_columns {G : Type} (width : G → Int) (f : G → TextIn
     (TextInput.placed width f l c)[k]? = (l[k]?).map (fun g => (c + widthSumI width (l.take k), f g)) :=
   placed_getElem? width f l c k
 
+/-- With graphemes of positive width the columns of a layout strictly increase: none of the cells of
+`textinput_cells_fit` is written over another one, each grapheme stays visible (a zero-width
+grapheme shares its column with the next one and is overwritten — in the model as in the widget). -/
+theorem textinput_cells_no_overwrite {G : Type} (width : G → Int) (hw : ∀ g, 0 < width g)
+    (f : G → TextInput.Glyph G) (l : List G) (c : Int) :
+    ((TextInput.placed width f l c).map (·.1)).Pairwise (· < ·) :=
+  placed_cols_increasing width hw f l c
+
 /-- Non-vacuity of `textinput_cells_fit`: prompt "aa", text "世a" in 12 columns: a a 世 · a. -/
 example :
     TextInput.drawCells (fun g : Nat => if g = 3 then 2 else 1) false (TextInput.setContent TextInput.new [3, 0]) [0, 0] 12 =
